@@ -70,25 +70,25 @@ type ParamSpec struct {
 
 // TxSpec describes one transaction as the client builds it.
 type TxSpec struct {
-	Signer   int       `json:"signer"`             // actor that signs (and pays unless Payer set)
-	Msgs     []MsgSpec `json:"msgs"`
-	Fee      string    `json:"fee"`                // coins string, "" = none
-	Gas      uint64    `json:"gas"`
-	Granter  int       `json:"granter,omitempty"`  // 1-based actor idx of fee granter, 0 = none
-	SigFault string    `json:"sig_fault,omitempty"` // "", wrong_key, wrong_chain, wrong_accnum, missing
-	SeqDelta int       `json:"seq_delta,omitempty"`
-	Replay   bool      `json:"replay,omitempty"`   // re-deliver the last bytes this signer produced (duplicate)
-	Check    bool      `json:"check,omitempty"`    // pass through CheckTx first (admission recorded); delivered regardless unless CheckOnly
-	CheckOnly bool     `json:"check_only,omitempty"`
-	Tag      string    `json:"tag,omitempty"`
+	Signer    int       `json:"signer"` // actor that signs (and pays unless Payer set)
+	Msgs      []MsgSpec `json:"msgs"`
+	Fee       string    `json:"fee"` // coins string, "" = none
+	Gas       uint64    `json:"gas"`
+	Granter   int       `json:"granter,omitempty"`   // 1-based actor idx of fee granter, 0 = none
+	SigFault  string    `json:"sig_fault,omitempty"` // "", wrong_key, wrong_chain, wrong_accnum, missing
+	SeqDelta  int       `json:"seq_delta,omitempty"`
+	Replay    bool      `json:"replay,omitempty"` // re-deliver the last bytes this signer produced (duplicate)
+	Check     bool      `json:"check,omitempty"`  // pass through CheckTx first (admission recorded); delivered regardless unless CheckOnly
+	CheckOnly bool      `json:"check_only,omitempty"`
+	Tag       string    `json:"tag,omitempty"`
 }
 
 // NodeEvent is what happens to one replica while the reference executes this block.
 type NodeEvent struct {
-	Node  int    `json:"node"`            // replica index (1-based; 0 is the reference)
-	Kind  string `json:"kind"`            // follow | lag | crash | restart | statesync
-	At    string `json:"at,omitempty"`    // crash point: begin | deliver | end | commit | commit.write | commit.after_meta | disk.error
-	K     int    `json:"k,omitempty"`     // deliver index or number of batch writes that survive
+	Node  int    `json:"node"`             // replica index (1-based; 0 is the reference)
+	Kind  string `json:"kind"`             // follow | lag | crash | restart | statesync
+	At    string `json:"at,omitempty"`     // crash point: begin | deliver | end | commit | commit.write | commit.after_meta | disk.error
+	K     int    `json:"k,omitempty"`      // deliver index or number of batch writes that survive
 	SkewS int64  `json:"skew_s,omitempty"` // wall-clock skew applied before this node executes (seconds)
 	JumpS int64  `json:"jump_s,omitempty"` // wall-clock jump in the middle of the block (seconds)
 }
